@@ -164,7 +164,7 @@ def run(ctx):
 
     # ---- T ---------------------------------------------------------------------------------------------------
     if info is not None:
-        ctx.lean_check(['Cherab.Props.C20'], 'Cherab/Audit/C20.lean')
+        ctx.lean_check(['Cherab.Props.C20', 'Cherab.Props.C20Dense'], 'Cherab/Audit/C20.lean')
 
     import cherab.tools.inversions.admt_utils as A
     st = State(ctx, A)
@@ -256,15 +256,19 @@ def k_ops(st):
         lines.append(ops_line(cells, v))
         obs.append((kind, nx, ny, cells, dx, dy, x0, y0, status, ops))
     outs = ctx.driver(lines)
-    for (kind, nx, ny, cells, dx, dy, x0, y0, status, ops), o in zip(obs, outs):
+    # round 6: the same grids through the driver op `dense` (Model/AdmtDense.lean: column-keyed rows, every assignment
+    # stored where the code stores it, last write wins) -- the form `dense_assembly_last_write_wins` ties to `ops`
+    douts = ctx.driver(['dense' + l[3:] for l in lines])
+    both = [('ops', r, o) for r, o in zip(obs, outs)] + [('dense', r, o) for r, o in zip(obs, douts)]
+    for stream, (kind, nx, ny, cells, dx, dy, x0, y0, status, ops), o in both:
         ctx.traces += 1
-        ctx.count('K-ops:' + kind)
-        desc = dict(stream='ops', kind=kind, nx=nx, ny=ny, cells=cells, dx=dx, dy=dy, x0=x0, y0=y0)
+        ctx.count('K-%s:%s' % (stream, kind))
+        desc = dict(stream=stream, kind=kind, nx=nx, ny=ny, cells=cells, dx=dx, dy=dy, x0=x0, y0=y0)
         t = o.split()
         if status != 'ok':
             agree = (t[0] == status)
-            ctx.count('K-ops:error:' + status)
-            ctx.case(key=('K-ops', kind, len(cells), status))
+            ctx.count('K-%s:error:%s' % (stream, status))
+            ctx.case(key=('K-' + stream, kind, len(cells), status))
         else:
             agree = t[0] == 'ok'
             if agree:
@@ -289,13 +293,13 @@ def k_ops(st):
                         break
                 for (ix, iy) in cells:
                     for name in OPS:
-                        ctx.case(key=('K-ops', kind, nx, ny, cell_class(nx, ny, ix, iy) if kind.startswith('full') else 'm', name),
+                        ctx.case(key=('K-' + stream, kind, nx, ny, cell_class(nx, ny, ix, iy) if kind.startswith('full') else 'm', name),
                                  sample=desc if rng.random() < 0.002 else None)
         if not agree:
             ctx.disagreements += 1
             desc['model'] = o[:200]
             desc['implementation'] = status
-            ctx.broke('correspondence', 'C20 stream ops/' + kind, desc)
+            ctx.broke('correspondence', 'C20 stream %s/%s' % (stream, kind), desc)
             # seed the search with the disagreeing case (only layouts inside the property: the documented column-major
             # order, and row-major which the extraction of dx, dy handles as well; never masked/degenerate/shuffled)
             if kind in ('full-col', 'full-row'):
